@@ -151,6 +151,8 @@ def build_case(desc):
 
 
 def run(rep, tier):
+    from .. import scale
+    scale.run(rep, PROP, tier)          # size ladders (seedverif/scale.py): the entries that concern this property
     rng = core.rng_for(PROP)
     descs = []
     cells = [(c, j, g) for c in CONSTRUCTS for j in JUMPS for g in GUARDS
